@@ -318,6 +318,11 @@ func (c *controlConn) setupConn(conn *Conn) error {
 	}
 
 	c.conn.Store(ch)
+	if atomic.LoadInt32(&c.state) == controlConnClosing {
+		// close() ran while we were connecting and may have missed this connection
+		conn.Close()
+		return errors.New("control: session closed")
+	}
 	if c.session.initialized() {
 		// We connected to control conn, so add the connect the host in pool as well.
 		// Notify session we can start trying to connect to the node.
